@@ -519,6 +519,78 @@ theorem nodeCover_step {c : Cfg} (hc : c.seriesLimitFirst = true) (hp : c.prepar
   | indexFlushCrash sh k => exact nodeCover_recover (nodeCover_setShard inv sh (coverInv_prefix (inv sh) k))
   | metaFlushFail k => exact nodeCover_of_shards (metaFlushPrefix_shards' nd k) inv
 
+/-! ### GenMetricID under the namespace / metric-name limits -/
+
+theorem KvStore.lookup_refused (s : KvStore) (b n : Nat) : s.refused.lookup b n = s.lookup b n := rfl
+
+theorem seqInv_refused {s : KvStore} {a b : Nat} (h : SeqInv s a b) : SeqInv s.refused a b :=
+  ⟨h.snapDisk, h.immSub, h.diskSub, h.bnd, h.dbnd, h.inj, fun hh => by simp [KvStore.refused] at hh, h.immE⟩
+
+/-- with both limits off (the default) `GenMetricID` is the unlimited one -/
+theorem genMetricLim_off (c : Cfg) (nd : Node) (nb ns name : Nat) (h1 : nd.lim.maxNamespaces = 0) (h2 : nd.lim.maxMetrics = 0) :
+    nd.genMetricLim c nb ns name = ((nd.genMetric c nb ns name).1, .out (nd.genMetric c nb ns name).2) := by
+  unfold Node.genMetricLim
+  have n1 : ¬ ((nd.ns.lookup nb ns).isNone = true ∧ nd.lim.maxNamespaces > 0 ∧ nd.lim.maxNamespaces < nd.seqMem.ns) := by
+    intro h; omega
+  rw [if_neg n1]
+  simp only []
+  cases hr : (getOrCreate c.kv nd.ns nd.seqMem.ns nb ns).2.2 with
+  | none =>
+    simp only []
+    unfold Node.genMetric
+    simp only [hr]
+  | some nsID =>
+    simp only []
+    rw [if_neg (by intro h; omega)]
+
+theorem genMetricLim_shards (c : Cfg) (nd : Node) (nb ns name : Nat) : (nd.genMetricLim c nb ns name).1.shards = nd.shards := by
+  unfold Node.genMetricLim
+  split
+  · rfl
+  · simp only []
+    split
+    · simp [afterAlloc_shards]
+    · split
+      · simp [afterAlloc_shards]
+      · exact genMetric_shards c nd nb ns name
+
+/-- **a refused name changes no id**: when `GenMetricID` answers ErrTooManyNamespace / ErrTooManyMetric the
+metadata invariant still holds, every name that had an id keeps it, the shards are untouched — and nothing is
+stored under the refused name (a later lookup does not find it) -/
+theorem genMetricLim_refused {nd : Node} (c : Cfg) (inv : MetaInv nd) (nb ns name : Nat)
+    (href : (nd.genMetricLim c nb ns name).2 = .tooManyNamespaces ∨ (nd.genMetricLim c nb ns name).2 = .tooManyMetrics) :
+    MetaInv (nd.genMetricLim c nb ns name).1 ∧ MonoMeta nd (nd.genMetricLim c nb ns name).1 ∧
+    (nd.genMetricLim c nb ns name).1.mview (.metric nb ns name) = none := by
+  unfold Node.genMetricLim at href ⊢
+  by_cases h1 : (nd.ns.lookup nb ns).isNone = true ∧ nd.lim.maxNamespaces > 0 ∧ nd.lim.maxNamespaces < nd.seqMem.ns
+  · rw [if_pos h1]
+    refine ⟨⟨inv.le, seqInv_refused inv.ns, inv.metric, inv.tagValue, inv.schema⟩, ?_, ?_⟩
+    · intro k j hj
+      cases k <;> exact hj
+    · show (match nd.ns.refused.lookup nb ns with | none => none | some q => nd.metric.lookup q name) = none
+      rw [KvStore.lookup_refused]
+      cases hq : nd.ns.lookup nb ns with
+      | none => rfl
+      | some q => rw [hq] at h1; simp at h1
+  · rw [if_neg h1] at href ⊢
+    simp only [] at href ⊢
+    obtain ⟨inv2, mono2, _, _, nsID, hr, hl⟩ := nsStep_spec c inv nb ns
+    simp only [Node.withNs] at inv2 mono2 hr hl
+    rw [hr] at href ⊢
+    simp only [] at href ⊢
+    split at href
+    · rename_i h2
+      rw [if_pos h2]
+      refine ⟨⟨inv2.le, inv2.ns, seqInv_refused inv2.metric, inv2.tagValue, inv2.schema⟩, ?_, ?_⟩
+      · intro k j hj
+        have := mono2 k j hj
+        cases k <;> exact this
+      · show (match (Node.afterAlloc c _).ns.lookup nb ns with | none => none | some q => (Node.afterAlloc c _).metric.refused.lookup q name) = none
+        rw [hl]
+        simp only [KvStore.lookup_refused]
+        rw [Option.isNone_iff_eq_none.1 h2.1]
+    · rcases href with h | h <;> cases h
+
 theorem nodeCover_fstep {c : Cfg} (hc : c.seriesLimitFirst = true) (hp : c.prepareSwapsEmpty = true)
     (ha : c.indexFlushAborts = true) {nd : Node} (inv : NodeCover nd) (op : FOp) :
     NodeCover (fstep c [0, 1, 2, 3] nd op) := by
@@ -528,6 +600,7 @@ theorem nodeCover_fstep {c : Cfg} (hc : c.seriesLimitFirst = true) (hp : c.prepa
     show NodeCover (nd.setShard sh (Node.flushFaultGo c.indexFlushAborts k [0, 1, 2, 3] (nd.shards sh)).1)
     rw [ha]
     exact nodeCover_setShard inv sh (coverInv_flushFault (inv sh) k)
+  | metricLim nb ns name => exact nodeCover_of_shards (genMetricLim_shards c nd nb ns name) inv
 
 theorem nodeCover_frun {c : Cfg} (hc : c.seriesLimitFirst = true) (hp : c.prepareSwapsEmpty = true)
     (ha : c.indexFlushAborts = true) (ops : List FOp) : ∀ {nd : Node}, NodeCover nd → NodeCover (frun c [0, 1, 2, 3] nd ops) := by
